@@ -161,9 +161,9 @@ func cmdCheck(args []string) int {
 		return 2
 	}
 	start := time.Now()
-	evPath := filepath.Join(verifDir(), "evidence", id+".json")
+	evPath := filepath.Join(evidenceDir(), id+".json")
 	os.Remove(evPath)
-	vdir := filepath.Join(verifDir(), "evidence", "violations")
+	vdir := filepath.Join(evidenceDir(), "violations")
 	if old, _ := filepath.Glob(filepath.Join(vdir, id+"-*.json")); len(old) > 0 {
 		for _, o := range old {
 			os.Remove(o)
